@@ -227,8 +227,19 @@ func decodeScalar(data []byte, oid int) interface{} {
 		return fmt.Sprintf("%02d:%02d:%02d", us/3600e6, (us/60e6)%60, (us/1e6)%60)
 	case OidTimeTZ:
 		us := i64(data, 0)
-		tz := i32(data, 8) // timezone offset in seconds
-		return fmt.Sprintf("%02d:%02d:%02d%+03d", us/3600e6, (us/60e6)%60, (us/1e6)%60, -tz/3600)
+		tz := i32(data, 8) // zone in seconds west of UTC; displayed offset is -tz
+		off, sign := -int(tz), byte('+')
+		if off < 0 {
+			off, sign = -off, '-'
+		}
+		s := fmt.Sprintf("%02d:%02d:%02d%c%02d", us/3600e6, (us/60e6)%60, (us/1e6)%60, sign, off/3600)
+		if off%3600 != 0 {
+			s += fmt.Sprintf(":%02d", off%3600/60)
+		}
+		if off%60 != 0 {
+			s += fmt.Sprintf(":%02d", off%60)
+		}
+		return s
 	case OidTimestamp, OidTimestampTZ:
 		return formatTimestamp(i64(data, 0))
 	case OidInterval:
